@@ -10,7 +10,7 @@ from util import call, quiet
 from props.C06 import describe, rules
 
 REQUIRED_THEOREMS = ['Usid.C02.reject_atomic', 'Usid.C02.accept_valid', 'Usid.C02.accept_faithful']
-RULE = ('[also: refusals by HDF5 itself after the validation passed - an unknown compression filter, chunks larger than the dataset] [optional dtype= and compression= keyword arguments included; every eleventh case lazy data with an explicit element type] random calls of write_main_dataset: data as numpy / dask / empty shape + dtype, dimension lists whose product '
+RULE = ('[also: verbose=True, lazy data in several chunks, main_dset_attrs, dimension values as float64 / float32 arrays; stored quantity / units observed] [also: refusals by HDF5 itself after the validation passed - an unknown compression filter, chunks larger than the dataset] [optional dtype= and compression= keyword arguments included; every eleventh case lazy data with an explicit element type] random calls of write_main_dataset: data as numpy / dask / empty shape + dtype, dimension lists whose product '
         'equals or differs from the data shape, slow_to_fast in {F,T}, custom prefixes (with "-"), reuse of ancillaries '
         'from the same or another file, wrong argument types, and prior group contents with clashing names of every '
         'kind (Position_*, Spectroscopic_*, the main name); after a rejection the corrected call is retried in the '
@@ -48,7 +48,12 @@ def generate(seed, tier):
                       'name': rng.choice(['MAIN', 'MAIN', ' MAIN ', 'MA-IN', 'Position_Values']),
                       # optional h5py keyword arguments handed through to the dataset creation
                       'kw_dtype': rng.choice([None, None, None, 'f4', 'f8']) if ds['dtype'] in ('f8', 'f4') else None,
-                      'kw_compression': rng.choice([None, None, None, 'gzip'])})
+                      'kw_compression': rng.choice([None, None, None, 'gzip']),
+                      # verbose output, lazy data in several chunks, extra attributes for the main dataset, dimension
+                      # values handed over as numpy arrays
+                      'verbose': rng.random() < 0.15, 'multichunk': rng.random() < 0.5,
+                      'main_attrs': rng.choice([None, None, {'note': 5}, {'comment': 'text', 'gain': 2.5}]),
+                      'dim_values_as': rng.choice(['list', 'list', 'array', 'f4array'])})
         if i % 11 == 10:      # a valid call with lazy data and an element type narrower / wider than the data's
             cases[-1].update({'err': 'none', 'data': 'dask', 'kw_dtype': rng.choice(['f4', 'f8'])})
             cases[-1]['ds'] = dict(ds, dtype=rng.choice(['f8', 'f4']))
@@ -97,7 +102,8 @@ def _call(inp, grp, other, a, data_arr):
     from pyUSID.io.dimension import Dimension
 
     def mk(dl):
-        return [Dimension(d['name'], d['units'], [v / 4.0 for v in d['values']]) for d in dl]
+        conv = {'list': list, 'array': np.array, 'f4array': lambda v: np.array(v, dtype=np.float32)}[inp.get('dim_values_as', 'list')]
+        return [Dimension(d['name'], d['units'], conv([v / 4.0 for v in d['values']])) for d in dl]
     kw = {'slow_to_fast': inp['s2f'], 'aux_pos_prefix': inp['pos_prefix'], 'aux_spec_prefix': inp['spec_prefix']}
     pos_dims = 'not dims' if a['pos_bad_type'] else mk(a['pos'])
     spec_dims = [1, 2] if a['spec_bad_type'] else mk(a['spec'])
@@ -122,7 +128,8 @@ def _call(inp, grp, other, a, data_arr):
             kw['dtype'] = np.float32
     else:
         arr = data_arr.reshape(-1) if a['data_rank_bad'] else data_arr
-        data = da.from_array(arr, chunks=arr.shape) if a['data'] == 'dask' else arr
+        chunks = tuple(max(1, (x + 1) // 2) for x in arr.shape) if inp.get('multichunk') else arr.shape
+        data = da.from_array(arr, chunks=chunks) if a['data'] == 'dask' else arr
         if inp.get('kw_dtype') and not a['empty_no_dtype']:
             kw['dtype'] = {'f4': np.float32, 'f8': np.float64}[inp['kw_dtype']]
     if inp.get('kw_compression'):
@@ -134,7 +141,12 @@ def _call(inp, grp, other, a, data_arr):
     if a['empty_no_dtype'] and a['data'] != 'empty':
         data = tuple(a['shape'])
     quantity = 'Current' if a['quantity_ok'] else 5
-    return call(write_main_dataset, grp, data, inp['name'], quantity, 'nA', pos_dims, spec_dims, **kw)
+    if inp.get('verbose'):
+        kw['verbose'] = True
+    if inp.get('main_attrs'):
+        kw['main_dset_attrs'] = dict(inp['main_attrs'])
+    with quiet():
+        return call(write_main_dataset, grp, data, inp['name'], quantity, 'nA', pos_dims, spec_dims, **kw)
 
 
 def run_impl(inp, work):
@@ -205,7 +217,9 @@ def _result(inp, f, grp, r, before, after, data_arr):
         return {'err': r[1], 'cls': r[2], 'left_behind': left, 'changed': changed}
     h5 = grp[name]
     d = describe(f, h5)
-    res = {'ok': True, 'valid': rules(d), 'desc': d}
+    res = {'ok': True, 'valid': rules(d), 'desc': d,
+           'quantity_units': [str(h5.attrs.get('quantity')), str(h5.attrs.get('units'))],
+           'main_attrs_ok': all(k in h5.attrs and h5.attrs[k] == v for k, v in (inp.get('main_attrs') or {}).items())}
     if inp['data'] != 'empty':
         res['data_equal'] = bool(np.array_equal(h5[()], data_arr))
     else:
@@ -262,6 +276,10 @@ def _check_ok(inp, res, what, fails):
         fails.append('%s-invalid: the written dataset violates the USID Main rules' % what)
     if not res['data_equal']:
         fails.append('%s-data: stored values differ from the input' % what)
+    if res.get('quantity_units', ['Current', 'nA']) != ['Current', 'nA']:
+        fails.append('%s-quantity-units: stored quantity / units are %s' % (what, res['quantity_units']))
+    if res.get('main_attrs_ok') is False:
+        fails.append('%s-main-attrs: the extra attributes for the main dataset were not stored as given' % what)
     a = res['anc']
     n, m = gen.n_points(ds['pos']), gen.n_points(ds['spec'])
     for side, key in ((ds['pos'], 'pos'), (ds['spec'], 'spec')):
